@@ -443,14 +443,15 @@ var specs = map[string]*CheckSpec{
 			}
 			return kindModeDesc(s, i)
 		}, []int{0, 9}),
-			concRun("ZZ_C16Conc", "ZZ_C16ConcN", "ZZ_C16ConcDesc", "", 1, 2, false, nil, []int{0})},
+			concRun("ZZ_C16Conc", "ZZ_C16ConcN", "ZZ_C16ConcDesc", "", 1, 1, false, nil, []int{0}),
+			thoroughOnly(onlyShapes(concRun("ZZ_C16Conc", "ZZ_C16ConcN", "ZZ_C16ConcDesc", "budget 2:", 2, 2, false, nil, []int{}), []int{0, 2}), "-p2")},
 		Bounds: func(tier string) map[string]any {
 			b := cmdBounds(tier)
 			p := 1
 			if tier == "thorough" {
 				p = 2
 			}
-			b["abandoned_clients"] = fmt.Sprintf("4 scenarios of 1-2 concurrent writes whose client may give up (context cancelled) at an arbitrary moment; every schedule with at most %d pre-emption(s); at rest persisted entries and published events are in bijection", p)
+			b["abandoned_clients"] = fmt.Sprintf("4 scenarios of 1-2 concurrent writes whose client may give up (context cancelled) at an arbitrary moment; every schedule with at most 1 pre-emption (thorough: %d on the single-request scenarios); at rest persisted entries and published events are in bijection", p)
 			return b
 		}, Assumptions: append([]string{"the commander publishes through the real bus.ledgerMonitor into a recording message.Publisher; publish.NewMessage is modelled (payload = JSON model of the real EventMessage; uuid and otel context constant)"}, cmdStubs...), Encoded: append([]string{"bus.(*ledgerMonitor).CommittedTransactions/SavedMetadata/RevertedTransaction/DeletedMetadata/publish", "bus.NewEventCommittedTransactions/NewEventSavedMetadata/NewEventRevertedTransaction/NewEventDeletedMetadata"}, cmdEncoded...),
 		Rule: "per write kind x {real, preview, repeated through an idempotency key}: every published message is decoded from its JSON payload and matched against a persisted log (ids symbolic), every persisted log has an event",
